@@ -360,7 +360,60 @@ def check_dmig(form, mtype, r, c, pattern, vclass, rs, res):
         msgs.append("DMIG form %d type %d: %d non-zeros read, %d written" % (form, mtype, np.count_nonzero(G.values), np.count_nonzero(M)))
     if gi != sorted(gi, key=lambda x: 10 * x[0] + x[1]):
         msgs.append("DMIG row index not in (id, dof) order")
+    if not msgs:
+        msgs.extend(_dmig_expanded(bulk, f, form, rows, cols, collabels, M, tol))
     return msgs, "ok"
+
+
+def _dmig_expanded(bulk, f, form, rows, cols, collabels, M, tol):
+    """documented read options on the same file: expanded=True (all 6 DOF of every referenced grid; form 9: columns 1..NCOL
+    where NCOL is the largest column number, wtdmig Notes) and square=True (form 1: identical row and column index)"""
+    msgs = []
+    header = f.getvalue().splitlines()[0]
+    if form == 9 and M.any():
+        try:
+            ncol = int(header[64:72])
+        except ValueError:
+            ncol = None
+        if ncol != max(collabels):
+            msgs.append("DMIG form 9: header NCOL %r, documented: largest column number %d\n%s" % (ncol, max(collabels), header))
+            return msgs
+    for opts in (dict(expanded=True), dict(expanded=True, square=True), dict(square=True)):
+        try:
+            with warnings.catch_warnings():
+                warnings.simplefilter("ignore")
+                E = bulk.rddmig(back(f), **opts)["kmat"]
+        except Exception as e:  # noqa
+            return ["rddmig(%r) raised %r on a file the default read accepts\n%s" % (opts, e, f.getvalue()[:400])]
+        ei = [tuple(int(x) for x in t) for t in E.index]
+        ec = [tuple(int(x) for x in t) for t in E.columns] if form != 9 else [int(x) for x in E.columns]
+        if form == 9 and opts.get("expanded") and ec != list(range(1, max(collabels) + 1)):
+            msgs.append("rddmig(%r) form 9: columns %r, expected 1..%d" % (opts, ec, max(collabels)))
+            break
+        if opts.get("expanded"):
+            want = set()
+            for (i, d) in ei:
+                want.update([(i, k) for k in range(1, 7)] if d > 0 else [(i, 0)])
+            if set(ei) != want or len(ei) != len(set(ei)):
+                msgs.append("rddmig(%r): row index is not the full 6-DOF expansion of the referenced ids: %r" % (opts, ei))
+                break
+        if form == 1 and opts.get("square") and ei != ec:
+            msgs.append("rddmig(%r) form 1: row and column index differ" % (opts,))
+            break
+        tot = 0
+        for (a, idr) in enumerate(rows):
+            for (b, idc) in enumerate(cols if form != 9 else collabels):
+                w_ = M[a, b]
+                g = E.values[ei.index(idr), ec.index(idc)] if idr in ei and idc in ec else 0.0
+                if abs(g - w_) > tol * max(abs(w_), 1e-300) and not (w_ == 0 and g == 0):
+                    msgs.append("rddmig(%r) form %d: entry row %s col %s wrote %r read %r\n%s" % (opts, form, idr, idc, w_, g, f.getvalue()[:500]))
+                    return msgs
+        sym = form == 6
+        nz_w = np.count_nonzero(M)
+        if not sym and np.count_nonzero(E.values) != nz_w:
+            msgs.append("rddmig(%r) form %d: %d non-zeros read, %d written" % (opts, form, np.count_nonzero(E.values), nz_w))
+            break
+    return msgs
 
 
 # ------------------------------------------------------------------ GRID / CORD2 / uset
